@@ -32,7 +32,7 @@ def one_dir(run, model, rng, nfiles, sub=False):
     bits = rng.choice([0, 0, 1, 1, rng.randrange(64)])
     sevs = tuple(sorted(rng.sample([0, 1, 2, 4, 5, 6, 7], rng.randrange(0, 3)))) if rng.random() < 0.4 else ()
     rev = rng.random() < 0.4
-    ext = rng.choice(["", "", ".pel", ".PEL", ".txt", "."])
+    ext = rng.choice(["", "", ".pel", ".PEL", ".txt", ".", "pel", "l", ".pel.pel"])
     hexm = rng.random() < 0.15
     run.evaluations += 1
     if nfiles >= 2:
@@ -73,7 +73,8 @@ def one_dir(run, model, rng, nfiles, sub=False):
         if names != want:
             run.violation("order:" + nm, "%s does not present the PELs in %s file-name order" % (nm, "descending" if rev else "ascending"),
                           dict(rp, kind="S", got=names, want=want))
-        if ext and any(not n.endswith(ext) for n in names):
+        import os as _os
+        if ext and any(_os.path.splitext(n)[1] != ext for n in names):
             run.violation("extension:" + nm, "%s shows a file without the requested extension" % nm, dict(rp, kind="S", got=names))
     if not hexm:
         docs = {doc["Private Header"]["Entry Id"]: doc for doc in alld}
